@@ -7,7 +7,7 @@
                try: fn(ARGS)                                   # <- per-call guard (the fix: commit)
                except Exception as err: ..._exception(...)
 
-   A deferred function is `DF id raises spawns`: when called it is logged, calls
+   A deferred function is `DF id raises spawns acts`: when called it is logged, calls
    `deferred(f)` for every f of `spawns` (in order) and then raises iff `raises`.
    `guard = true` is the code as it is in the worktree (per-call try/except);
    `guard = false` is the pinned tree before the fix: the exception leaves the `for`,
@@ -15,22 +15,35 @@
 From Bac Require Export Base.
 Open Scope Z_scope.
 
-Inductive dfn : Set := DF (id : nat) (raises : bool) (spawns : list dfn).
+(* what a callback (of a task or of a deferred function) may do to the schedule, besides
+   deferring functions: the _Task API on itself or on another task *)
+Inductive sact : Set :=
+| AInstall (i : nat) (t : Z)        (* tasks[i].install_task(when=t) *)
+| AInstallAfter (i : nat) (d : Z)   (* tasks[i].install_task(delta=d) *)
+| AReinstall (i : nat)              (* tasks[i].install_task() *)
+| ASuspend (i : nat)                (* tasks[i].suspend_task() *)
+| AResume (i : nat).                (* tasks[i].resume_task() *)
 
-Definition d_id (d : dfn) : nat := match d with DF i _ _ => i end.
-Definition d_raises (d : dfn) : bool := match d with DF _ r _ => r end.
-Definition d_spawns (d : dfn) : list dfn := match d with DF _ _ s => s end.
+(* a deferred function: logged, defers `spawns`, performs `acts` in order (an API call that raises
+   ends it), then raises iff `raises`.  The pure functions of this file ignore `acts` (they do not
+   touch the deferred queue); Sched.v threads the scheduler state through them. *)
+Inductive dfn : Set := DF (id : nat) (raises : bool) (spawns : list dfn) (acts : list sact).
+
+Definition d_id (d : dfn) : nat := match d with DF i _ _ _ => i end.
+Definition d_raises (d : dfn) : bool := match d with DF _ r _ _ => r end.
+Definition d_spawns (d : dfn) : list dfn := match d with DF _ _ s _ => s end.
+Definition d_acts (d : dfn) : list sact := match d with DF _ _ _ a => a end.
 
 (* total number of functions in a forest (termination measure of the drain loop) *)
 Fixpoint d_size (d : dfn) : nat :=
-  match d with DF _ _ sp => S ((fix go (l : list dfn) : nat :=
+  match d with DF _ _ sp _ => S ((fix go (l : list dfn) : nat :=
                                   match l with [] => O | x :: r => (d_size x + go r)%nat end) sp) end.
 Fixpoint f_size (l : list dfn) : nat :=
   match l with [] => O | x :: r => (d_size x + f_size r)%nat end.
 
 (* every function of a forest (depth first), the population "handed to the queue" *)
 Fixpoint d_all (d : dfn) : list dfn :=
-  match d with DF _ _ sp => d :: (fix go (l : list dfn) : list dfn :=
+  match d with DF _ _ sp _ => d :: (fix go (l : list dfn) : list dfn :=
                                     match l with [] => [] | x :: r => d_all x ++ go r end) sp end.
 Fixpoint f_all (l : list dfn) : list dfn :=
   match l with [] => [] | x :: r => d_all x ++ f_all r end.
@@ -63,6 +76,12 @@ Fixpoint drain (guard : bool) (fuel : nat) (q : list dfn) : list dfn * list dfn 
 
 (* fuel the wrapper supplies: one round per function is always enough *)
 Definition drain_all (guard : bool) (q : list dfn) := drain guard (f_size q) q.
+
+(* a function (transitively) without scheduling actions *)
+Fixpoint no_acts (d : dfn) : bool :=
+  match d with DF _ _ sp a => (match a with [] => true | _ :: _ => false end)
+                              && (fix go (l : list dfn) : bool :=
+                                    match l with [] => true | x :: r => no_acts x && go r end) sp end.
 
 (* canonical output for the correspondence *)
 Definition zn (n : nat) : Z := Z.of_nat n.
